@@ -197,6 +197,11 @@ class Checker:
 
         root = Path(path)
         if root.name == self.name:
+            inner = root / self.name
+            if (inner.exists() and not self._holds_content(root)
+                    and self._holds_content(inner)):
+                # the parent directory carries the same name as the content
+                root = inner
             self.log_msg("Content found: %s.", str(root))
             return root
 
@@ -205,6 +210,34 @@ class Checker:
 
         self.log_msg("Could not locate torrent content in: %s", str(root))
         raise FileNotFoundError(root)
+
+    def _holds_content(self, base: Path) -> bool:
+        """
+        Test if the first file described by the torrent exists under base.
+
+        Parameters
+        ----------
+        base : Path
+            candidate for the root of the torrent content
+
+        Returns
+        -------
+        bool
+            True if base looks like the content root
+        """
+        if "files" in self.info:
+            first = self.info["files"][0]["path"]
+            return (base / os.path.join(*first)).exists()
+        if "length" in self.info:
+            return base.is_file()
+        parts, tree = [], self.info.get("file tree", {})
+        while tree and "" not in tree:
+            key = next(iter(tree))
+            parts.append(key)
+            tree = tree[key]
+        if parts == [self.name] and base.is_file():
+            return True
+        return bool(parts) and (base / os.path.join(*parts)).exists()
 
     def check_paths(self):
         """
